@@ -219,7 +219,129 @@ func ruleIOConv(c *Ctx) {
 // (OUTPUTMODE can change between two records, and an Interpreter can be reused with another separator);
 // and (EMPTY) a record consisting of one empty field does not reach Write at all (encoding/csv writes it
 // as an empty line, which CSV readers skip), but is written quoted.
+// csvWriterReuse: encoding/csv buffers what it writes in a bufio.Writer of its own unless it is handed a
+// *bufio.Writer (large enough), which it then uses directly; a record written without Flush on the csv.Writer is
+// only delivered in the second case. Every value passed to csv.NewWriter whose csv.Writer is not flushed must
+// therefore be known to be a *bufio.Writer: built from one, or reached only through a successful assertion to it.
+func csvWriterReuse(c *Ctx) {
+	n := 0
+	for _, fn := range c.srcFuncs("interp") {
+		fn := fn
+		allInstrs(fn, func(in ssa.Instruction) {
+			call, ok := in.(*ssa.Call)
+			if !ok {
+				return
+			}
+			if f := calleeObj(call); f == nil || funcFullName(f) != "encoding/csv.NewWriter" || len(call.Call.Args) != 1 {
+				return
+			}
+			n++
+			key := "csv-writer:reuse:" + fnKey(fn)
+			// is the csv.Writer flushed in this function? then any destination is fine
+			flushed := false
+			if refs := call.Referrers(); refs != nil {
+				for _, r := range *refs {
+					if c2, ok := r.(ssa.CallInstruction); ok {
+						if f2 := calleeObj(c2); f2 != nil && funcFullName(f2) == "(*encoding/csv.Writer).Flush" {
+							flushed = true
+						}
+					}
+				}
+			}
+			if flushed {
+				c.ok(key, posOr(in.Pos(), fn.Pos()), "the csv.Writer is flushed after use")
+				return
+			}
+			isBufio := func(t types.Type) bool { return types.TypeString(t, nil) == "*bufio.Writer" }
+			var okVal func(v ssa.Value, at *ssa.BasicBlock, depth int) bool
+			okVal = func(v ssa.Value, at *ssa.BasicBlock, depth int) bool {
+				if depth > 4 {
+					return false
+				}
+				switch x := v.(type) {
+				case *ssa.MakeInterface:
+					return isBufio(x.X.Type())
+				case *ssa.ChangeInterface:
+					return okVal(x.X, at, depth+1)
+				case *ssa.Phi:
+					for i, e := range x.Edges {
+						if !okVal(e, x.Block().Preds[i], depth+1) {
+							return false
+						}
+					}
+					return true
+				}
+				if isBufio(v.Type()) {
+					return true
+				}
+				// an interface value: some successful assertion of it to *bufio.Writer holds on every path to `at`
+				refs := v.Referrers()
+				if refs == nil {
+					return false
+				}
+				for _, r := range *refs {
+					ta, ok := r.(*ssa.TypeAssert)
+					if !ok || !isBufio(ta.AssertedType) {
+						continue
+					}
+					if !ta.CommaOk {
+						if ta.Block().Dominates(at) {
+							return true
+						}
+						continue
+					}
+					for _, r2 := range *ta.Referrers() {
+						ex, ok := r2.(*ssa.Extract)
+						if !ok || ex.Index != 1 {
+							continue
+						}
+						for _, r3 := range *ex.Referrers() {
+							iff, ok := r3.(*ssa.If)
+							if !ok {
+								continue
+							}
+							d := iff.Block()
+							if d == at && len(d.Succs) == 2 {
+								// the value flows along this block's own true edge (phi operand): accepted when the phi
+								// sits in the true successor
+								return true
+							}
+							if d.Dominates(at) && !reachableAvoiding(d.Succs[1], d)[at] {
+								return true
+							}
+						}
+					}
+				}
+				return false
+			}
+			arg := call.Call.Args[0]
+			good := okVal(arg, in.Block(), 0)
+			// a phi operand arriving straight from the asserting block must come along its true edge
+			if ph, ok := arg.(*ssa.Phi); ok && good {
+				for i, e := range ph.Edges {
+					pred := ph.Block().Preds[i]
+					if _, isMI := e.(*ssa.MakeInterface); isMI {
+						continue
+					}
+					if len(pred.Instrs) > 0 {
+						if iff, ok := pred.Instrs[len(pred.Instrs)-1].(*ssa.If); ok {
+							if ex, ok := iff.Cond.(*ssa.Extract); ok {
+								if ta, ok := ex.Tuple.(*ssa.TypeAssert); ok && isBufio(ta.AssertedType) && ta.X == e && pred.Succs[0] != ph.Block() {
+									good = false
+								}
+							}
+						}
+					}
+				}
+			}
+			c.check(good, key, posOr(in.Pos(), fn.Pos()), "the destination handed to csv.NewWriter is known to be a *bufio.Writer on every path (so the record lands in that buffer)", fnKey(fn)+" hands csv.NewWriter a destination that is not known to be a *bufio.Writer and never flushes the csv.Writer: for such a destination encoding/csv buffers the record in a writer of its own, and the record is never delivered")
+		})
+	}
+	c.atLeast("csv.NewWriter calls", n, 1)
+}
+
 func csvWriterConfig(c *Ctx) {
+	csvWriterReuse(c)
 	nW := 0
 	for _, fn := range c.srcFuncs("interp") {
 		var writes []*ssa.Call
